@@ -35,7 +35,7 @@ func countExact(v, tok string) int {
 }
 
 var relToks = []string{"nofollow", "noreferrer", "noopener", "nofollowx", "xnofollow", "NOFOLLOW", "noopenerx", "external", "stylesheet", "x-noreferrer", "no", "NoOpener", "noreferrer-x", "nofollow_noopener"}
-var relSeps = []string{" ", " ", "  ", "\t", "\n", "\f", "\r"}
+var relSeps = []string{" ", " ", "  ", "\t", "\n", "\f", "\r", " ", " ", "\u00a0", "\v", "\u2003", "\u0085"} // the last four are NOT HTML whitespace: they glue tokens together
 var hrefPool = []string{"http://example.com/", "https://a.b/c", "//cdn.x/y", "/local", "rel.html", "#f", "mailto:a@b.c", "http:/x", "http:evil.com", "javascript:alert(1)", "http://user@/p",
 	"HTTP://EXAMPLE.COM", "http://[::1]/", "https://h:8080/", "http:\\\\evil.com", "?q=http://x/", "http://é.com/", " http://padded.example/ ", "//", "///x", "http://"}
 var targetPool = []string{"_blank", "_self", "foo", "_BLANK", "", "_blank ", "_top"}
